@@ -86,25 +86,33 @@ fn parse_env(toks: &[&str]) -> Vec<(String, Bind)>
 	}).collect()
 }
 
-/// source text of a literal tree: decimal literals, parentheses everywhere
-fn render(a: &Arg) -> String
+/// source text of a literal tree with ONLY the parentheses the documented precedence table requires
+/// (unary 7 > * / % 6 > + - 5 > << >> 4 > & 3 > ^ 2 > | 1, binary operators left-associative), so that the
+/// text path exercises precedence and associativity of the real parser
+fn render(a: &Arg) -> String { render_prec(a, 0) }
+
+fn render_prec(a: &Arg, min: u8) -> String
 {
-	fn bin(op: &str, l: &Arg, r: &Arg) -> String { format!("({} {} {})", render(l), op, render(r)) }
+	fn bin(op: &str, p: u8, l: &Arg, r: &Arg, min: u8) -> String
+	{
+		let s = format!("{} {} {}", render_prec(l, p), op, render_prec(r, p + 1));
+		if p < min { format!("({})", s) } else { s }
+	}
 	match a
 	{
 		Argument::Constant(Number::Integer(v)) =>
 		{
 			if *v >= 0 { format!("{}", v) }
-			else if *v == i64::MIN { "((-9223372036854775807) - 1)".to_string() }
-			else { format!("(-{})", -*v) }
+			else if *v == i64::MIN { "(-9223372036854775807 - 1)".to_string() }
+			else if min > 7 { format!("(-{})", -*v) } else { format!("-{}", -*v) }
 		},
-		Argument::Add{lhs, rhs} => bin("+", lhs, rhs), Argument::Subtract{lhs, rhs} => bin("-", lhs, rhs),
-		Argument::Multiply{lhs, rhs} => bin("*", lhs, rhs), Argument::Divide{lhs, rhs} => bin("/", lhs, rhs),
-		Argument::Modulo{lhs, rhs} => bin("%", lhs, rhs), Argument::BitAnd{lhs, rhs} => bin("&", lhs, rhs),
-		Argument::BitOr{lhs, rhs} => bin("|", lhs, rhs), Argument::BitXor{lhs, rhs} => bin("^", lhs, rhs),
-		Argument::LeftShift{lhs, rhs} => bin("<<", lhs, rhs), Argument::RightShift{lhs, rhs} => bin(">>", lhs, rhs),
-		Argument::Negate(v) => format!("(-{})", render(v)),
-		Argument::Not(v) => format!("(!{})", render(v)),
+		Argument::Add{lhs, rhs} => bin("+", 5, lhs, rhs, min), Argument::Subtract{lhs, rhs} => bin("-", 5, lhs, rhs, min),
+		Argument::Multiply{lhs, rhs} => bin("*", 6, lhs, rhs, min), Argument::Divide{lhs, rhs} => bin("/", 6, lhs, rhs, min),
+		Argument::Modulo{lhs, rhs} => bin("%", 6, lhs, rhs, min), Argument::BitAnd{lhs, rhs} => bin("&", 3, lhs, rhs, min),
+		Argument::BitOr{lhs, rhs} => bin("|", 1, lhs, rhs, min), Argument::BitXor{lhs, rhs} => bin("^", 2, lhs, rhs, min),
+		Argument::LeftShift{lhs, rhs} => bin("<<", 4, lhs, rhs, min), Argument::RightShift{lhs, rhs} => bin(">>", 4, lhs, rhs, min),
+		Argument::Negate(v) => format!("-{}", render_prec(v, 7)),
+		Argument::Not(v) => format!("!{}", render_prec(v, 7)),
 		_ => panic!("render: not a literal tree"),
 	}
 }
